@@ -912,6 +912,96 @@ def none_sources_and_writes(prog, f, depth=0, seen=None):
     return bad, sources
 
 
+def yields_without_advancing(prog, nxt, adt, field):
+    """[description] of yield sites in next() and its same-type helpers that lie on an entry-to-return path without a store to self.<field>.
+    A yield site is a block that produces a possibly-Some value flowing into the function's Option return value: a call of a function
+    outside the iterator's own helpers (slice first / get), or a Some(..) aggregate.  Calls of the iterator's own helpers are judged in the
+    helper if it returns an Option of an item; a helper that stores to the field on all of its paths counts as a store at its call."""
+    short = adt.split("::")[-1]
+    own = [g for g in closure_of(prog, [nxt.path]) if g.kind != "Closure" and (short + "<") in g.path.replace("::<", "<") or g.path == nxt.path]
+    own = [g for g in own if g.path == nxt.path or adt.rsplit("::", 1)[0] in g.path]
+    own_paths = {g.path for g in own}
+
+    def store_blocks(g, must):
+        bs = set()
+        for b2, i2, p2, rv2, s2 in g.assigns():
+            if an.self_field(g.canon(p2)) == field:
+                bs.add(b2)
+        for b2, t2 in g.calls():
+            for h in prog.call_targets(g, t2):
+                if h.path in must:
+                    bs.add(b2)
+        return bs
+
+    def rets(g):
+        return [b for b in g.nodes() if g.term(b)["k"] == "return"]
+
+    # helpers that store to the field on every entry-to-return path (fixpoint, starting from none)
+    must = set()
+    for _ in range(4):
+        new = set()
+        for g in own:
+            if g.path == nxt.path:
+                continue
+            sb = store_blocks(g, must)
+            free = g.reachable_from(0, avoid=sb) if 0 not in sb else set()
+            if sb and not any(r in free for r in rets(g)):
+                new.add(g.path)
+        if new == must:
+            break
+        must = new
+    out = []
+    for g in own:
+        ret_ty = g.local_ty(0)
+        if not ret_ty.startswith("core::option::Option<"):
+            continue
+        if g.path != nxt.path and "()" in ret_ty:
+            continue
+        sb = store_blocks(g, must)
+        # yield sites
+        sites = []
+        seen = set()
+        work = [0]
+        while work:
+            l = work.pop()
+            if l in seen:
+                continue
+            seen.add(l)
+            for d in g.defs.get(l, []):
+                if d[0] == "call":
+                    tg = [h.path for h in prog.call_targets(g, d[2])]
+                    nm = callee_name(d[2]["callee"])
+                    if any(p_ in own_paths for p_ in tg):
+                        continue          # judged in the helper
+                    if callee_is(d[2]["callee"], "core::ops::try_trait::FromResidual::from_residual"):
+                        continue          # `?` on None: yields nothing
+                    sites.append((d[1], nm.split("::")[-1]))
+                elif d[0] == "assign":
+                    rv = d[3]
+                    if rv["k"] == "aggregate":
+                        if rv.get("variant") == "None":
+                            continue
+                        sites.append((d[1], "Some(..)"))
+                    elif rv["k"] == "use":
+                        if rv["op"]["k"] == "const":
+                            continue
+                        ol = op_local(rv["op"])
+                        if ol is not None:
+                            work.append(ol)
+                        else:
+                            sites.append((d[1], "value"))
+                    else:
+                        sites.append((d[1], rv["k"]))
+        free_in = g.reachable_from(0, avoid=sb) if 0 not in sb else set()
+        for yb, what in sites:
+            if yb in sb or yb not in free_in:
+                continue
+            after = g.reachable_from(yb, avoid=sb)
+            if any(r in after for r in rets(g)):
+                out.append("%s: %s at %s" % (g.path.split("::")[-1], what, g.loc(yb)))
+    return out
+
+
 def top_guard(f):
     """`if self.X >= self.Y { return None }` at the top of next with no effect before it: returns (field X, field Y) or None"""
     # entry block chain up to the first switch
@@ -1042,6 +1132,12 @@ def c19bcd(chk, rows):
                                     if an.self_field(g.canon(p2)) == x:
                                         incs += 1
                         chk.ob("C19.b", "%s::next/guard-field-advanced" % short, incs >= 1, nxt.loc(), "the guard compares self.%s with self.%s; %s is advanced at %d store(s)" % (x, y, x, incs))
+                        # .. and on EVERY path that yields an item: an item handed out without advancing the guarded field is handed out again
+                        # (the iterator never ends and len() stays put)
+                        unadv = yields_without_advancing(prog, nxt, adt, x)
+                        chk.ob("C19.b", "%s::next/every-yield-advances-%s" % (short, x), not unadv, nxt.loc(),
+                               "in next() and the helpers it calls, every path from the function's entry through a place where an item is produced "
+                               "(a value other than a constant None flowing into the Option that is returned) to the return stores to self.%s; paths that do not: %s" % (x, unadv or "none"))
         # ---- exact size
         sl, info = sh.slice_locals(0)
         sh_fields = {fl for (a_, fl) in info["fields"]}
